@@ -4,7 +4,7 @@ SPECIFICATION Spec
 CONSTANTS
   Users = {"u1", "u2", "u3"}
   Chans = {"c1", "c2"}
-  Bodies = {"A", "B", "C", "D", "R"}
+  Bodies = {"A", "Ae", "Ab", "B", "C", "Cn", "D", "R"}
   HdrKinds = {"cur"}
   Vias = {"d", "b1:a1", "b1:a2", "bx:a1"}
   Creds = {"o1", "o2", "ox"}
@@ -14,6 +14,7 @@ CONSTANTS
   MaxSnap = 1
   MaxRestart = 1
   MaxInject = 0
+  MaxBattery = 2
   MaxCfg = 2
   FixedF5 = FALSE
   RecordHist = TRUE
